@@ -195,7 +195,7 @@ var ecTable = [MaxVersion + 1][4][2]int{
 	14: {{30, 4}, {24, 9}, {20, 16}, {24, 16}},
 	15: {{22, 6}, {24, 10}, {30, 12}, {24, 18}},
 	16: {{24, 6}, {28, 10}, {24, 17}, {30, 16}},
-	17: {{28, 6}, {28, 11}, {28, 17}, {28, 19}},
+	17: {{28, 6}, {28, 11}, {28, 16}, {28, 19}},
 	18: {{30, 6}, {26, 13}, {28, 18}, {28, 21}},
 	19: {{28, 7}, {26, 14}, {26, 21}, {26, 25}},
 	20: {{28, 8}, {26, 16}, {30, 20}, {28, 25}},
@@ -211,7 +211,7 @@ var ecTable = [MaxVersion + 1][4][2]int{
 	30: {{30, 15}, {28, 29}, {30, 40}, {30, 48}},
 	31: {{30, 16}, {28, 31}, {30, 43}, {30, 51}},
 	32: {{30, 17}, {28, 33}, {30, 45}, {30, 54}},
-	33: {{30, 18}, {28, 35}, {30, 48}, {30, 56}},
+	33: {{30, 18}, {28, 35}, {30, 48}, {30, 57}},
 	34: {{30, 19}, {28, 37}, {30, 51}, {30, 60}},
 	35: {{30, 19}, {28, 38}, {30, 53}, {30, 63}},
 	36: {{30, 20}, {28, 40}, {30, 56}, {30, 66}},
